@@ -109,6 +109,64 @@ fn kind_is_bin(op: &str, _b: &Value) -> bool {
     !matches!(op, "Neg" | "BitNot" | "BoolNot")
 }
 
+/// C14: `codepage <id>` — encodes sample strings with the library's code page and
+/// with the encoding_rs table the identifier's documented name designates.
+fn replay_codepage(args: &[String]) -> i32 {
+    let id: i32 = args[0].parse().expect("id");
+    let cp = match msi::CodePage::from_id(id) {
+        Some(cp) => cp,
+        None => {
+            println!("REPLAY family=codepage id={id} verdict=ok (not a supported id)");
+            return 0;
+        }
+    };
+    let want: &'static encoding_rs::Encoding = match cp.id() {
+        932 => encoding_rs::SHIFT_JIS,
+        936 => encoding_rs::GBK,
+        949 => encoding_rs::EUC_KR,
+        950 | 951 => encoding_rs::BIG5,
+        1250 => encoding_rs::WINDOWS_1250,
+        1251 => encoding_rs::WINDOWS_1251,
+        1252 | 28591 => encoding_rs::WINDOWS_1252,
+        1253 => encoding_rs::WINDOWS_1253,
+        1254 => encoding_rs::WINDOWS_1254,
+        1255 => encoding_rs::WINDOWS_1255,
+        1256 => encoding_rs::WINDOWS_1256,
+        1257 => encoding_rs::WINDOWS_1257,
+        1258 => encoding_rs::WINDOWS_1258,
+        10000 => encoding_rs::MACINTOSH,
+        10007 => encoding_rs::X_MAC_CYRILLIC,
+        28592 => encoding_rs::ISO_8859_2,
+        28593 => encoding_rs::ISO_8859_3,
+        28594 => encoding_rs::ISO_8859_4,
+        28595 => encoding_rs::ISO_8859_5,
+        28596 => encoding_rs::ISO_8859_6,
+        28597 => encoding_rs::ISO_8859_7,
+        28598 => encoding_rs::ISO_8859_8,
+        20127 => {
+            println!("REPLAY family=codepage id={id} verdict=ok (US-ASCII has no table)");
+            return 0;
+        }
+        _ => encoding_rs::UTF_8,
+    };
+    let mut bad = false;
+    let mut shown = String::new();
+    for sample in ["\u{65e5}\u{672c}\u{8a9e}", "\u{6c49}\u{5b57}", "\u{d55c}\u{ae00}", "\u{e9}\u{20ac}", "\u{416}"] {
+        let got = cp.encode(sample);
+        let (exp, _, unmappable) = want.encode(sample);
+        if unmappable {
+            continue; // replacement policy differs ('?' vs numeric reference); only mappable samples compared
+        }
+        if got != exp.as_ref() {
+            bad = true;
+            shown = format!("sample={sample:?} library={got:02x?} {}={:02x?}", want.name(), exp.as_ref());
+            break;
+        }
+    }
+    println!("REPLAY family=codepage id={id} expected_table={} {shown} verdict={}", want.name(), if bad { "VIOLATED" } else { "ok" });
+    if bad { 1 } else { 0 }
+}
+
 fn main() {
     let args: Vec<String> = std::env::args().skip(1).collect();
     if args.is_empty() {
@@ -117,6 +175,7 @@ fn main() {
     }
     let rc = match args[0].as_str() {
         "expr" => replay_expr(&args[1..]),
+        "codepage" => replay_codepage(&args[1..]),
         _ => 2,
     };
     std::process::exit(rc);
